@@ -54,16 +54,42 @@ class NodeVocab:
         world.isinstance_hooks.append(self._isinstance)
         world.truth_hooks.append(self._truth)
         world.call_hooks.append(self._call)
+        # Python == on nodes is _eq_fn (content + origins), not identity; `x in seq_of_nodes` uses it too.
+        # Only what every __eq__ gives is assumed: identical objects are equal.
+        self.node_eq = z3.Function("node_eq", R, R, z3.BoolSort())
+        self.contains_eq = z3.Function("contains_eq", z3.SeqSort(R), R, z3.BoolSort())
+
+        def py_eq(m: Any, a: V, b: V) -> Any:
+            if isinstance(a, VU) and isinstance(b, VU) and a.sort == self.REF and b.sort == self.REF:
+                m.ctx.assume(z3.Implies(a.term == b.term, self.node_eq(a.term, b.term)))
+                return self.node_eq(a.term, b.term)
+            return None
+
+        def py_in(m: Any, seq: V, x: V) -> Any:
+            if isinstance(x, VU) and x.sort == self.REF:
+                m.ctx.assume(z3.Implies(z3.Contains(seq.term, z3.Unit(x.term)), self.contains_eq(seq.term, x.term)))
+                return self.contains_eq(seq.term, x.term)
+            return None
+
+        world.py_eq_hooks = getattr(world, "py_eq_hooks", []) + [py_eq]
+        world.py_in_hooks = getattr(world, "py_in_hooks", []) + [py_in]
         world.consts["ASTNode"] = VU(z3.Const("ASTNode_cls", C), self.CLS)
         sf = world.spec_fns
         sf["reg_get"] = lambda m, k: VOpt(z3.Select(m.term, k.term), self.REG.opt)
         sf["reg_remove"] = lambda m, k: VMap(z3.Store(m.term, k.term, self.REG.opt.none().term), self.REG)
         sf["reg_set"] = lambda m, k, v: VMap(z3.Store(m.term, k.term, self.REG.opt.some(v).term), self.REG)
         sf["registered"] = lambda m, n: VBool(z3.Select(m.term, self.f_id(self.REF.coerce(n).term)) == self.REG.opt.some(self.REF.coerce(n)).term)
-        sf["cls_of"] = lambda n: VU(self.cls_of(self.REF.coerce(n).term), self.CLS)
+        sf["cls_of"] = lambda n: VU(self.cls_of(self.ref(n)), self.CLS)
         sf["subclass"] = lambda a, b: VBool(self.subclass(a.term, b.term))
         sf["kids"] = self.kids
         sf["fname"] = lambda f: VStr(self.fname(f.term))
+
+    def ref(self, n: V) -> Any:
+        """Ref term of a spec argument; a literal None (possible only under a guard such as
+        `implies(x is not None, ...)`) becomes an unconstrained dummy."""
+        if isinstance(n, VNone):
+            return z3.Const("none_dummy_ref", self.REF.z3())
+        return self.REF.coerce(n).term
 
     # ---- hooks ----------------------------------------------------------------------------------
     def _attr(self, m: Any, obj: V, name: str) -> V | None:
